@@ -73,7 +73,7 @@ func awkValues() []any {
 	}
 }
 
-var awkMethods = []string{"push", "insert", "replace", "isequal", "transfer", "setdelim", "setsymbol", "setencap",
+var awkMethods = []string{"push", "pushtwice", "insert", "replace", "isequal", "transfer", "setdelim", "setsymbol", "setencap",
 	"setloglevel", "unsetloglevel", "setlogger", "marshal", "convstack", "convcond", "cond_kw", "cond_ex", "cond_op",
 	"setkeyword", "setexpression", "setoperator", "cisequal", "csetencap", "evaluate", "setaux"}
 
@@ -124,6 +124,8 @@ func runAwkward(raw json.RawMessage) (res *Result, err error) {
 		switch in.Method {
 		case "push":
 			s.Push(v, "after")
+		case "pushtwice":
+			s.Push(v, v) // two slots holding values of the same (possibly uncomparable) type
 		case "insert":
 			s.Insert(v, 1)
 		case "replace":
@@ -241,7 +243,11 @@ func runAwkward(raw json.RawMessage) (res *Result, err error) {
 			}
 			step = "IsNesting/Less/Front/Back"
 			_ = s.IsNesting()
-			_ = s.Less(0, 1)
+			for i := -1; i <= s.Len(); i++ {
+				for j := -1; j <= s.Len(); j++ {
+					_ = s.Less(i, j)
+				}
+			}
 			_, _ = s.Front()
 			_, _ = s.Back()
 			step = "Defrag"
@@ -292,5 +298,5 @@ func genAwkward(ctx *Ctx, emit func(any, string)) {
 
 func init() {
 	register(&Family{Name: "awkward", Gen: genAwkward, Run: runAwkward,
-		Rule: "exhaustive: 24 methods taking `any`/interfaces (Push, Insert, Replace, IsEqual, Transfer, SetDelimiter, SetSymbol, SetEncap, Set/UnsetLogLevel, SetLogger, Marshal, ConvertStack, ConvertCondition, Cond (each argument), SetKeyword, SetExpression, SetOperator, Condition.IsEqual/SetEncap/Evaluate, Auxiliary.Set) x a catalogue of 63 awkward Go values (typed nils of depth 1-2, zero Stack/Condition/aliases, funcs, chans, maps, private-field structs, NaN, complex, uintptr, unsafe pointer, empty/nil slices, arrays, errors, stringers, pointers to pointers, bogus operators, NaN-keyed maps, operators of an uncomparable type, non-nil pointers to zero and freed instances) x receiver states; then a battery of observers (String, Unmarshal, Marshal of it, IsEqual self/copy both ways, Traverse, IsNesting, Less, Front, Back, Defrag, Reveal, Push/Pop). Observed: any panic (with the step), receiver still initialised and usable. every case is non-trivial; distinct = input hash"})
+		Rule: "exhaustive: 25 methods taking `any`/interfaces (Push, Push of the same value twice, Insert, Replace, IsEqual, Transfer, SetDelimiter, SetSymbol, SetEncap, Set/UnsetLogLevel, SetLogger, Marshal, ConvertStack, ConvertCondition, Cond (each argument), SetKeyword, SetExpression, SetOperator, Condition.IsEqual/SetEncap/Evaluate, Auxiliary.Set) x a catalogue of 63 awkward Go values (typed nils of depth 1-2, zero Stack/Condition/aliases, funcs, chans, maps, private-field structs, NaN, complex, uintptr, unsafe pointer, empty/nil slices, arrays, errors, stringers, pointers to pointers, bogus operators, NaN-keyed maps, operators of an uncomparable type, non-nil pointers to zero and freed instances) x receiver states; then a battery of observers (String, Unmarshal, Marshal of it, IsEqual self/copy both ways, Traverse, IsNesting, Less over every pair of positions, Front, Back, Defrag, Reveal, Push/Pop). Observed: any panic (with the step), receiver still initialised and usable. every case is non-trivial; distinct = input hash"})
 }
